@@ -19,3 +19,17 @@ Theorem C02_independent_components_commute : forall (shared mstate draws gstate 
   snd (fst (step_all shared mstate draws gstate stream offset base ti (pre ++ c2 :: c1 :: cs) (mpre ++ m2 :: m1 :: ms) s g)).
 Proof. exact independent_order_irrelevant. Qed.
 Print Assumptions C02_independent_components_commute.
+
+(* a sufficient condition that can be read off two components: when the shared state is a family of named arrays and each component has a read
+   set and a write set (it writes only W, its outputs depend only on R, it leaves the process-wide generator alone), disjoint footprints --
+   W1 disjoint from W2 and R2, W2 disjoint from R1 -- make the two orders agree on both private states, on every array, and on the generator *)
+Theorem C02_disjoint_footprints_commute : forall (V mstate draws gstate : Type) (c1 c2 : comp (string -> V) mstate draws gstate) R1 W1 R2 W2,
+  footprint V mstate draws gstate c1 R1 W1 -> footprint V mstate draws gstate c2 R2 W2 ->
+  (forall k, W1 k = true -> W2 k = false /\ R2 k = false) -> (forall k, W2 k = true -> R1 k = false) ->
+  forall d1 d2 ti m1 m2 s g,
+    let r1 := cstep _ _ _ _ c1 d1 ti m1 s g in let r12 := cstep _ _ _ _ c2 d2 ti m2 (shr V mstate gstate r1) (gst V mstate gstate r1) in
+    let q2 := cstep _ _ _ _ c2 d2 ti m2 s g in let q21 := cstep _ _ _ _ c1 d1 ti m1 (shr V mstate gstate q2) (gst V mstate gstate q2) in
+    mst V mstate gstate r1 = mst V mstate gstate q21 /\ mst V mstate gstate r12 = mst V mstate gstate q2 /\
+    (forall k, shr V mstate gstate r12 k = shr V mstate gstate q21 k) /\ gst V mstate gstate r12 = gst V mstate gstate q21.
+Proof. exact disjoint_footprints_commute. Qed.
+Print Assumptions C02_disjoint_footprints_commute.
